@@ -361,7 +361,13 @@ def must_calls(repo, col, prop):
 
 def run_all(prop, repo, col, tier):
     mod = importlib.import_module(f"rules.{prop.lower()}")
-    mod.check(repo, col, tier)
+    pending = None
+    try:
+        mod.check(repo, col, tier)
+    except AnalysisError as e:
+        pending = e  # the property's own analysis lost an anchor: still run the cross-cutting rules, then report it
     dead_parameters(repo, col, prop)
     early_exits(repo, col, prop)
     must_calls(repo, col, prop)
+    if pending is not None:
+        raise pending
